@@ -19,7 +19,7 @@ TIMEOUTS = [0.5, 1.0, 2.0, 5.0]
 
 def plan(tier: str) -> dict:
     return {
-        "runs": 30000 if tier == "quick" else 400000,
+        "runs": 30000 if tier == "quick" else 1000000,
         "budget": 150 if tier == "quick" else 900,
         "cases": [],
         "chunk": 40,
